@@ -16,8 +16,9 @@ package main
 //   crd_control          a property of the same shape WITHOUT the extension, and the same paths on an instance of an
 //                        undeclared kind, are untouched
 //   crd_metadata_union   metadata.labels of the custom instance = input + all labels of the whole chain
-//   crd_selects          a custom instance that selected the pods of a workload of its layer still does, unless a
-//                        labels entry without includeSelectors overrides a selected key (documented behaviour)
+//   crd_selects          when the innermost layer declares the kind: a custom instance that selected the pods of a workload
+//                        of its layer still does, unless a labels entry without includeSelectors overrides a selected key
+//                        (documented behaviour)
 //
 // The ordinary oracles (own_selector, unions, frame, no_hidden_content ...) run on the built-in kinds of the same tree.
 
@@ -362,8 +363,12 @@ func oracleCrd08(r *Run, c *c08CrdCase, bo buildOut) {
 			}
 		}
 	}
-	// selection of the layer's workloads
+	// selection of the layer's workloads. Only when every layer of the chain sees the declaration: a layer below the
+	// declaring one relabels the workload's selector and template but (by construction of `crds:`) not the custom selector.
 	for wi, w := range workloads {
+		if c.CrdLayer != 0 {
+			break
+		}
 		wo, ok := bo.outs[workloadNames[wi]]
 		if !ok {
 			continue
